@@ -82,8 +82,10 @@ def gen_cases(tier, seed):
         for f in range(10):
             for le in LIST_EDITS:
                 structured.append(['kexinit_list', d, f, le])
-        for x in ('cookie', 'follows', 'reserved'):
+        for x in ('cookie', 'follows', 'reserved', 'append1', 'append16'):
             structured.append(['kexinit_misc', d, x])
+        structured.append(['kexmsg_append', d, 1])
+        structured.append(['kexmsg_append', d, 8])
         structured.append(['padding', d, 'kexinit'])
         structured.append(['padding', d, 'kexmsg'])
         structured.append(['padlen', d, 'kexinit'])
@@ -94,7 +96,7 @@ def gen_cases(tier, seed):
     for v in ('e_pad', 'n_pad', 'both_pad', 'trailing'):
         structured.append(['hostkey_reencode', S2C, v])
     for v in ('zero', 'one', 'pm1', 'p', 'pp1', 'empty', 'short', 'long',
-              'allzero', 'allff'):
+              'allzero', 'allff', 'strip0', 'strip0', 'strip0', 'pad0'):
         structured.append(['range', C2S, v])
         structured.append(['range', S2C, v])
 
@@ -292,6 +294,10 @@ class HandshakeMITM:
                     b[1 + self.rng.randrange(16)] ^= 0x40
                 elif e[2] == 'follows':
                     b[-5] ^= 1
+                elif e[2] == 'append1':
+                    b += b'\x00'
+                elif e[2] == 'append16':
+                    b += bytes(self.rng.randrange(256) for _ in range(16))
                 else:
                     b[-1] ^= 1
                 new = bytes(b)
@@ -323,6 +329,12 @@ class HandshakeMITM:
                     new = bytes(b)
                     self.covered = True
                     self.detail = {'type': t, 'pos': e[3]}
+            elif e[0] == 'kexmsg_append' and is_kexmsg and \
+                    self.kexmsg_n[d] == 1:
+                # bytes after the last field of the first KEX message
+                new = payload + bytes(e[2])
+                self.covered = True
+                self.detail = {'appended_to': t, 'n': e[2]}
             elif e[0] == 'hostkey_swap' and is_kexmsg and d == S2C:
                 new = self._swap_hostkey(payload)
                 self.covered = True
@@ -331,7 +343,12 @@ class HandshakeMITM:
                 self.covered = True
             elif e[0] == 'range' and is_kexmsg:
                 new = self._range(payload, d, e[2])
-                self.covered = True
+                # e / f of the finite-field methods enter the hash as
+                # numbers (canonical mpint): a redundant leading zero on
+                # the wire is the same number, so either outcome is fine
+                self.covered = not (
+                    e[2] == 'pad0' and R.kex_family(
+                        self.case['kex'].encode()) in ('dh', 'gex'))
 
         if new is not None and new != payload:
             self.changed = True
@@ -442,7 +459,12 @@ class HandshakeMITM:
                'p': b'\x00' + b'\xff' * n,
                'pp1': b'\x01' + bytes(n),
                'empty': b'', 'short': old[:-1], 'long': old + b'\x00',
-               'allzero': bytes(n), 'allff': b'\xff' * n}[which]
+               'allzero': bytes(n), 'allff': b'\xff' * n,
+               # the same number in another encoding: mpint sign byte
+               # removed (then negative per RFC 4251) or a redundant one
+               # added - either way not the bytes that were hashed
+               'strip0': old[1:] if old[:1] == b'\x00' else old,
+               'pad0': b'\x00' + old}[which]
         if val == old:
             return None
         self.detail = {'public_value': which, 'len': n, 'type': t}
